@@ -173,6 +173,31 @@ def run(repo: Repo, rep: Report, only=None):
                 rep.fail("R-POLY.inverse", F, "general branch", f"inverse @ self is not the identity (component {k}: {dict(zip('abcdef', l))[k]})", T, T.func("Affine2D.inverse"))
     if n_general == 0:
         rep.fail("R-POLY.inverse", F, "general branch", "no path computes an inverse for a general non-degenerate matrix", T, T.func("Affine2D.inverse"))
+    # which matrices take the degenerate branch is a numeric question: constant matrices of either orientation (mirrors have a negative
+    # determinant), small and large determinants, and singular ones
+    from fractions import Fraction as Fr
+    consts = [(-1, 0, 0, 1, 3, 4), (1, 0, 0, -1, 0, 7), (0, 1, 1, 0, 0, 0), (Fr(3, 5), Fr(4, 5), Fr(-4, 5), Fr(3, 5), 1, 2), (2, 0, 0, 2, 0, 0), (1, 2, 0, 1, 5, 6),
+              (Fr(1, 1000), 0, 0, Fr(1, 1000), 1, 1), (-3, 1, 2, 5, -1, 0), (1000, 0, 0, -1000, 0, 0), (1, 0, 0, 1, 0, 0)]
+    singular = [(1, 2, 2, 4, 0, 0), (0, 0, 0, 0, 1, 1), (1, 0, 0, 0, 0, 0)]
+    badc = None
+    for m6 in consts + singular:
+        recm = Rec(ClassRef("svg_transform", "Affine2D"), dict(zip("abcdef", m6)))
+        for o_ in _outs(repo, Aff("inverse"), [recm], F):
+            if o_.raised:
+                badc = f"inverse of matrix{m6} raises {o_.raised}"
+                continue
+            v = vals(o_.value)
+            if m6 in singular:
+                if not all(c.is_zero() for c in v):
+                    badc = f"the singular matrix{m6} is inverted to {tuple(map(repr, v))}"
+                continue
+            mm = tuple(to_rf(x) for x in m6)
+            if not (same(mul(v, mm), IDENT) and same(mul(mm, v), IDENT)):
+                badc = f"inverse of matrix{tuple(map(str, m6))} (determinant {m6[0] * m6[3] - m6[1] * m6[2]}) is {tuple(map(repr, v))}: not its inverse"
+    if badc:
+        rep.fail("R-POLY.inverse", F, "constant matrices", badc, T, T.func("Affine2D.inverse"))
+    else:
+        rep.ok("R-POLY.inverse", F + " [constant matrices]", f"{len(consts)} regular matrices (mirrors, rotations, shears, small and large determinants) are inverted exactly, {len(singular)} singular ones give the degenerate matrix", True)
 
     # ---- operations = self @ M_op
     t1, t2, t3 = S("t1"), S("t2"), S("t3")
@@ -634,6 +659,7 @@ def _check_decompose(repo, rep):
 
 _T = "svg_transform"
 VARIANTS = [
+    Variant("degeneracy tested on the signed determinant", [Edit(_T, "Affine2D.is_degenerate", "abs(self.determinant())", "self.determinant()")], [("R-POLY.inverse", "inverse")]),
     Variant("swap c/b in one matmul component", [Edit(_T, "Affine2D.__matmul__", "a=self.a * other.a + self.c * other.b,", "a=self.a * other.a + self.b * other.c,")],
             [("R-POLY.matmul", "__matmul__")]),
     Variant("compose_ltr drops reversed", [Edit(_T, "Affine2D.compose_ltr", "reversed(affines)", "affines")], [("R-POLY.compose", "compose_ltr")]),
